@@ -355,6 +355,20 @@ theorem c05_hpack_error (c : H2Conn) (sid : Nat) (es : Bool) (hodd : sid % 2 = 1
     not_true_eq_false, h3, newStream, reduceCtorEq, and_false]
   exact ⟨ob.1, ob.2.2⟩
 
+/-- ... and likewise in a header block the server has no use for -- HEADERS for a refused stream,
+    for a new stream after a graceful GOAWAY, trailers on a stream that is closed or no longer
+    tracked (every use of `discardHeaders` in `recvHeaders`/`recvTrailers`): the block is still
+    decoded, the HPACK state being the connection's, and a block that does not decode is
+    GOAWAY(COMPRESSION_ERROR) (c908cdc; below the 32 discarded blocks that end the connection with
+    ENHANCE_YOUR_CALM anyway) -/
+theorem c05_hpack_error_discarded (c : H2Conn) (hg : c.goaway ≤ 0) (hn : c.nDiscarded < 32) :
+    ConnErr c (discardHeaders c .hpackBad) E.compression := by
+  have hng : ¬ c.goaway > 0 := by omega
+  have hc : ¬ c.nDiscarded + 1 > 32 := by omega
+  have ob := sendGoaway_observable { c with nDiscarded := c.nDiscarded + 1 } E.compression (by decide) hg
+  simp only [ConnErr, discardHeaders, hng, if_false, discardCount, hc, List.nil_append]
+  exact ⟨ob.1, ob.2.2⟩
+
 /-- **Not a data sink, and no stall**: DATA (with payload) for a stream the server no longer
     tracks, outside the recently-half-closed window, draws ONE graceful GOAWAY(NO_ERROR) and ends
     the parsing round (streams are served before parsing goes on); once a GOAWAY is out such a frame
